@@ -56,7 +56,7 @@ class Sweep:
         self.outside = 0
         self.same_accepts = {}
 
-    def one(self, suite, label, mut, raw, r, inner, want, extra=None):
+    def one(self, suite, label, mut, raw, r, inner, want, alts=()):
         """one mutated message `raw`, one would-be recipient r"""
         ctx, w = self.ctx, self.w
         o = w.impl_decrypt(raw, r)
@@ -64,7 +64,9 @@ class Sweep:
                 'want': want if len(raw) <= 4000 else None}
         ctx.case(suite, (label, mut, r[:2]), nontrivial=True, sample={'msg': label, 'mutation': mut, 'recipient': list(r[:2]), 'impl': repr(o)[:80]})
         # direct oracle: raise, or the ORIGINAL plaintext
-        if o[0] == 'ok' and o[1] != want:
+        # (alts: a whole genuine data packet made with the SAME caller-supplied session key was substituted -- a replay, its own
+        #  plaintext is the only other acceptable outcome)
+        if o[0] == 'ok' and o[1] != want and not any(o[1] == a[1] for a in alts):
             ctx.fail(suite, 'a modified / mis-keyed message decrypted to a DIFFERENT plaintext', dict(case, impl=repr(o)[:400]))
         if o[0] == 'ok':
             self.same_accepts[suite] = self.same_accepts.get(suite, 0) + 1
@@ -77,13 +79,13 @@ class Sweep:
         m_ok = mo.startswith('ok ')
         if m_ok != (o[0] == 'ok'):
             ctx.fail(suite, 'model gate and implementation disagree on accept/reject', dict(case, impl=repr(o)[:200], model=mo[:200]))
-        elif m_ok and unhx(mo[3:])[:-22] != inner:
+        elif m_ok and unhx(mo[3:])[:-22] != inner and not any(unhx(mo[3:])[:-22] == a[0] for a in alts):
             ctx.fail(suite, 'model accepted with a different plaintext', dict(case, model=mo[:200]))
         if not m_ok:
             k = (mo[6:], o[1] if o[0] == 'raise' else 'ok')
             self.pairs[k] = self.pairs.get(k, 0) + 1
             # the passphrase loop converts every failure into PGPDecryptionError (or the message is refused before)
-            if r[0] == 'P' and not mo.startswith('raise parse:') and o[0] == 'raise' and o[1] not in ('PGPDecryptionError', 'PGPError'):
+            if r[0] == 'P' and o[0] == 'raise' and o[2] == 'decrypt' and o[1] not in ('PGPDecryptionError', 'PGPError'):
                 ctx.fail(suite, 'PGPMessage.decrypt let a %s escape' % o[1], dict(case, model=mo))
         return o
 
@@ -177,22 +179,23 @@ def structural(ctx, sw, w, label, raw, recips, inner, want, alg, other=None):
         for p in esks:
             muts.append(('session key packet at %d removed' % p[1], b''.join(raw[q[1]:q[3]] for q in esks if q != p) + sp))
     if other is not None:
-        oraw, same_sk = other
+        oraw, same_sk, oinner, owant = other
         opk = walk(oraw)
         oseipd = [p for p in opk if p[0] == 18][0]
         oct_ = oraw[oseipd[2] + 1:oseipd[3]]
         oesk = b''.join(oraw[p[1]:p[3]] for p in opk if p[0] in (1, 3))
         tagn = 'same session key' if same_sk else 'other session key'
         muts.append(('splice: session keys of the other message (%s) + this data' % tagn, oesk + sp))
-        muts.append(('splice: these session keys + data of the other message (%s)' % tagn, allesk + oraw[oseipd[1]:oseipd[3]]))
+        muts.append(('splice: these session keys + data of the other message (%s)' % tagn, allesk + oraw[oseipd[1]:oseipd[3]],
+                     [(oinner, owant)] if same_sk else []))
         muts.append(('splice: both session key sets + this data', oesk + allesk + sp))
         for k in range(1, min(nb, len(oct_) // bs, ctx.n(5, 40))):
             muts.append(('splice: blocks < %d of this + rest of the other (%s)' % (k, tagn), reframe(ct[:k * bs] + oct_[k * bs:])))
             muts.append(('splice: blocks < %d of the other + rest of this (%s)' % (k, tagn), reframe(oct_[:k * bs] + ct[k * bs:])))
         muts.append(('splice: MDC of the other message (%s)' % tagn, reframe(ct[:-22] + oct_[-22:])))
-    for name, blob in muts:
+    for mu in muts:
         for r in recips:
-            sw.one('structural', label, name, blob, r, inner, want)
+            sw.one('structural', label, mu[0], mu[1], r, inner, want, alts=mu[2] if len(mu) > 2 else ())
 
 
 def wrong_secrets(ctx, sw, w, label, raw, recips, inner, want):
@@ -231,8 +234,8 @@ def run(ctx):
         for label, recips, alg in specs:
             sk = bytes(rng.randrange(256) for _ in range(KEYLEN[alg]))
             raw, inner, want = make_message(ctx, w, recips, alg, sk=sk)
-            raw2, _, _ = make_message(ctx, w, recips, alg, body=b'retreat at once!', sk=sk)            # same recipient, same session key
-            raw3, _, _ = make_message(ctx, w, recips, alg, body=b'retreat at once!', sk=None if len(recips) == 1 else bytes(KEYLEN[alg]))
+            raw2, inner2, want2 = make_message(ctx, w, recips, alg, body=b'retreat at once!', sk=sk)            # same recipient, same session key
+            raw3, inner3, want3 = make_message(ctx, w, recips, alg, body=b'retreat at once!', sk=None if len(recips) == 1 else bytes(KEYLEN[alg]))
             for r in recips:      # sanity: the unmodified message decrypts
                 o = sw.one('unmodified', label, 'none', raw, r, inner, want)
                 if o != ('ok', want):
@@ -257,8 +260,8 @@ def run(ctx):
                 ctx.exhaustive.append('%s (%d octets: %s): every single-bit flip (%d) and truncation at every offset' %
                                       (label, len(raw), ' '.join('tag%d[%d..%d)' % (p[0], p[1], p[3]) for p in pk), n))
             if not (slow and ctx.quick):
-                structural(ctx, sw, w, label, raw, recips, inner, want, alg, other=(raw2, True))
-                structural(ctx, sw, w, label + ' (2)', raw, recips, inner, want, alg, other=(raw3, False))
+                structural(ctx, sw, w, label, raw, recips, inner, want, alg, other=(raw2, True, inner2, want2))
+                structural(ctx, sw, w, label + ' (2)', raw, recips, inner, want, alg, other=(raw3, False, inner3, want3))
             else:
                 # a reduced structural set for the slow key: MDC games and splices only
                 for name, blob in rsa_quick_mutations(ctx, raw, raw2, alg):
